@@ -6,6 +6,7 @@ import sys
 from . import runner
 
 CONTRACTS = {
+    'C01': 'contracts.c01',
     'C02': 'contracts.c02',
     'C03': 'contracts.c03',
     'C04': 'contracts.c04',
